@@ -198,7 +198,7 @@ class Adbd(object):
             if st.host_clse > 1:
                 self.bad('C04: more than one CLSE on stream %d' % a0)
             if not st.closed_by_device:
-                self.send(b'CLSE', st.remote, a0)
+                self.send(b'CLSE', 0 if getattr(self, 'clse_zero_remote', False) else st.remote, a0)
             st.closed_by_host = True
             del self.streams[a0]
             self.closed = getattr(self, 'closed', []) + [st]
@@ -348,6 +348,11 @@ class Adbd(object):
                 out += rec(b'FAIL', f[1])
                 self.reply(st, out)
                 return
+            if self.data_plan and self.data_plan[k % len(self.data_plan)] == 0 and any(self.data_plan):
+                out += rec(b'DATA', b'')           # a zero-length DATA record (legal: the size field is 0)
+                k += 1
+                nrec += 1
+                continue
             n = 65536 if not self.data_plan else max(1, min(65536, self.data_plan[k % len(self.data_plan)]))
             k += 1
             out += rec(b'DATA', content[i:i + n])
